@@ -1,0 +1,142 @@
+//go:build verif
+
+package bip39
+
+// Ghost client functions for /verif (compiled only under the `verif` build
+// tag). Each one calls the real API and panics on the negation of a
+// relational property; the verifier replaces every call by the callee's
+// contract and proves the panics unreachable. Nothing here is reachable from
+// a production build.
+
+import (
+	"bytes"
+	"errors"
+)
+
+// verifRoundTrip: C02, generator -> validator.
+func verifRoundTrip(e []byte, lg Language) {
+	m, err := NewMnemonicByEntropy(e, lg)
+	if err != nil {
+		panic("C02: valid entropy rejected")
+	}
+	if CheckMnemonic(m, lg) != nil {
+		panic("C02: generated mnemonic rejected by CheckMnemonic")
+	}
+}
+
+// verifRoundTripValid: C02, IsMnemonicValid on generator output.
+func verifRoundTripValid(e []byte, lg Language) {
+	m, err := NewMnemonicByEntropy(e, lg)
+	if err != nil {
+		panic("C02: valid entropy rejected")
+	}
+	if !IsMnemonicValid(m, lg) {
+		panic("C02: generated mnemonic rejected by IsMnemonicValid")
+	}
+}
+
+// verifRoundTripRand: C02, NewMnemonic -> validator (source delivers enough bytes).
+func verifRoundTripRand(n int, lg Language) {
+	m, err := NewMnemonic(n, lg)
+	if err != nil {
+		panic("C02: working source reported as failure")
+	}
+	if CheckMnemonic(m, lg) != nil {
+		panic("C02: fresh mnemonic rejected by CheckMnemonic")
+	}
+}
+
+// verifLossless: C05, the contract states that the standard decoding of the
+// result is the entropy passed in.
+func verifLossless(e []byte, lg Language) string {
+	m, _ := NewMnemonicByEntropy(e, lg)
+	return m
+}
+
+// verifSameVerdict: C10.
+func verifSameVerdict(a, b string, lg Language) {
+	ea := CheckMnemonic(a, lg)
+	eb := CheckMnemonic(b, lg)
+	if (ea == nil) != (eb == nil) {
+		panic("C10: verdict differs between spellings with equal NFKD form")
+	}
+	if errors.Is(ea, ErrWordLen) != errors.Is(eb, ErrWordLen) || errors.Is(ea, ErrChecksumIncorrect) != errors.Is(eb, ErrChecksumIncorrect) {
+		panic("C10: error kind differs between spellings with equal NFKD form")
+	}
+}
+
+// verifSameSeed: C11.
+func verifSameSeed(m1, p1, m2, p2 string) {
+	s1 := MnemonicToSeed(m1, p1)
+	s2 := MnemonicToSeed(m2, p2)
+	if !bytes.Equal(s1, s2) {
+		panic("C11: seed differs between spellings with equal NFKD forms")
+	}
+}
+
+// verifBoolean: C03, IsMnemonicValid is true exactly when CheckMnemonic returns nil.
+func verifBoolean(m string, lg Language) {
+	v := IsMnemonicValid(m, lg)
+	e := CheckMnemonic(m, lg)
+	if v != (e == nil) {
+		panic("C03: IsMnemonicValid disagrees with CheckMnemonic")
+	}
+}
+
+// verifAnyCall stands for an arbitrary API call (C13): by the call rule its
+// contract is all a caller may assume about what the call did to the state.
+func verifAnyCall(k int, e []byte, lg Language, s string, n int) {
+	switch k {
+	case 0:
+		_, _ = NewMnemonicByEntropy(e, lg)
+	case 1:
+		_, _ = NewMnemonic(n, lg)
+	case 2:
+		_ = CheckMnemonic(s, lg)
+	case 3:
+		_ = IsMnemonicValid(s, lg)
+	case 4:
+		_ = MnemonicToSeed(s, s)
+	default:
+		_ = lg.String()
+	}
+}
+
+// verifHistoryCheck: C13 for the validator.
+func verifHistoryCheck(m string, lg Language, k int, e []byte, l2 Language, s string, n int) {
+	e1 := CheckMnemonic(m, lg)
+	verifAnyCall(k, e, l2, s, n)
+	e2 := CheckMnemonic(m, lg)
+	if (e1 == nil) != (e2 == nil) || errors.Is(e1, ErrWordLen) != errors.Is(e2, ErrWordLen) || errors.Is(e1, ErrChecksumIncorrect) != errors.Is(e2, ErrChecksumIncorrect) {
+		panic("C13: validation outcome depends on call history")
+	}
+}
+
+// verifHistoryEncode: C13 for the encoder, and no mutation of the caller's slice.
+func verifHistoryEncode(x []byte, lg Language, k int, e []byte, l2 Language, s string, n int) {
+	m1, err1 := NewMnemonicByEntropy(x, lg)
+	verifAnyCall(k, e, l2, s, n)
+	m2, err2 := NewMnemonicByEntropy(x, lg)
+	if m1 != m2 || (err1 == nil) != (err2 == nil) {
+		panic("C13: encoding depends on call history")
+	}
+}
+
+// verifHistorySeed: C13 for the seed, and earlier results are not altered.
+func verifHistorySeed(m, p string, k int, e []byte, l2 Language, s string, n int) {
+	s1 := MnemonicToSeed(m, p)
+	verifAnyCall(k, e, l2, s, n)
+	s2 := MnemonicToSeed(m, p)
+	if !bytes.Equal(s1, s2) {
+		panic("C13: seed depends on call history or an earlier result was altered")
+	}
+}
+
+// verifHistoryName: C13 for Language.String.
+func verifHistoryName(i Language, k int, e []byte, l2 Language, s string, n int) {
+	a := i.String()
+	verifAnyCall(k, e, l2, s, n)
+	if a != i.String() {
+		panic("C13: name depends on call history")
+	}
+}
